@@ -274,5 +274,9 @@ func (s *stmt) ExecContext(ctx context.Context, args []driver.NamedValue) (drive
 	return s.s.ExecContext(ctx, args)
 }
 func (s *stmt) QueryContext(ctx context.Context, args []driver.NamedValue) (driver.Rows, error) {
+	// an insert ... returning is run as a query: it is a write like any other
+	if (s.kind == "events" || s.kind == "payloads" || s.kind == "tags" || s.kind == "deleted_keys" || s.kind == "deleted_ids" || s.kind == "insert") && s.p.poisoned(args) {
+		return nil, ErrInjected
+	}
 	return s.s.QueryContext(ctx, args)
 }
